@@ -452,3 +452,103 @@ Proof.
     + destruct finals as [|f ft]; [discriminate|]. cbn [filter]. rewrite deactivated_append, D. cbn [negb combine map fst snd].
       f_equal. apply IH. cbn [length] in Hlen. lia.
 Qed.
+
+(* ------------------------------------------------------------------------------------ *)
+(* 7. Blocking-adjusted prior: lower-casing both sides = comparing the names as they are, *)
+(*    whenever no two distinct names involved collide in lower case                      *)
+(* ------------------------------------------------------------------------------------ *)
+Section PriorNames.
+Variable f : string -> string.
+Variable S : list string.
+Hypothesis f_inj : forall x y, In x S -> In y S -> f x = f y -> x = y.
+
+Lemma smem_map x l : In x S -> incl l S -> smem (f x) (map f l) = smem x l.
+Proof.
+  intros Hx Hl. unfold smem. induction l as [|y t IH]; cbn; [reflexivity|].
+  rewrite IH by (intros z Hz; apply Hl; right; exact Hz). f_equal.
+  apply bool_eq_iff. rewrite !String.eqb_eq. split; [|congruence].
+  apply f_inj; [exact Hx|apply Hl; left; reflexivity].
+Qed.
+
+Lemma ssubset_map a b : incl a S -> incl b S -> ssubset (map f a) (map f b) = ssubset a b.
+Proof.
+  intros Ha Hb. unfold ssubset. induction a as [|x t IH]; cbn; [reflexivity|].
+  rewrite smem_map by (auto; apply Ha; left; reflexivity).
+  rewrite IH by (intros z Hz; apply Ha; right; exact Hz). reflexivity.
+Qed.
+
+Lemma sminus_map a b : incl a S -> incl b S -> sminus (map f b) (map f a) = map f (sminus b a).
+Proof.
+  intros Ha Hb. unfold sminus. induction b as [|x t IH]; cbn; [reflexivity|].
+  rewrite smem_map by (auto; apply Hb; left; reflexivity).
+  rewrite IH by (intros z Hz; apply Hb; right; exact Hz).
+  destruct (smem x a); reflexivity.
+Qed.
+
+Lemma sminus_incl a b : incl b S -> incl (sminus b a) S.
+Proof. intros Hb z Hz. apply Hb. unfold sminus in Hz. apply filter_In in Hz. tauto. Qed.
+
+Definition gmap {X : Type} (c : list string * X) : list string * X := (map f (fst c), snd c).
+
+Lemma greedy_map {X : Type} (cands : list (list string * X)) : forall cols,
+  (forall c, In c cands -> incl (fst c) S) -> incl cols S ->
+  greedy (map gmap cands) (map f cols) = greedy cands cols.
+Proof.
+  induction cands as [|[ec x] t IH]; intros cols Hc Hcols; [reflexivity|].
+  cbn [map greedy]. unfold gmap at 1. cbn [fst snd].
+  assert (Hec : incl ec S) by (apply (Hc (ec, x)); left; reflexivity).
+  assert (Ht : forall c, In c t -> incl (fst c) S) by (intros c Hin; apply Hc; right; exact Hin).
+  rewrite ssubset_map by assumption. destruct (ssubset ec cols).
+  - rewrite sminus_map by assumption. rewrite IH; [reflexivity|exact Ht|apply sminus_incl; exact Hcols].
+  - apply IH; assumption.
+Qed.
+
+Lemma gmap_len {X : Type} (c : list string * X) : length (fst (gmap c)) = length (fst c).
+Proof. unfold gmap. cbn [fst]. apply map_length. Qed.
+
+Lemma sinsert_map {X : Type} (c : list string * X) l : sinsert (gmap c) (map gmap l) = map gmap (sinsert c l).
+Proof.
+  induction l as [|y t IH]; [reflexivity|]. cbn [map sinsert]. rewrite !gmap_len.
+  destruct (Nat.ltb (length (fst y)) (length (fst c))); cbn [map]; [reflexivity|]. rewrite IH. reflexivity.
+Qed.
+
+Lemma ssort_map {X : Type} (l : list (list string * X)) : ssort (map gmap l) = map gmap (ssort l).
+Proof. unfold ssort. induction l as [|c t IH]; cbn; [reflexivity|]. rewrite IH. apply sinsert_map. Qed.
+
+Lemma sinsert_In {X : Type} (c d : list string * X) l : In d (sinsert c l) -> d = c \/ In d l.
+Proof.
+  induction l as [|y t IH]; cbn [sinsert]; [cbn; intuition|].
+  destruct (Nat.ltb (length (fst y)) (length (fst c))); cbn [In]; [intuition|]. intros [H|H]; [auto|]. destruct (IH H); auto.
+Qed.
+
+Lemma ssort_In {X : Type} (d : list string * X) l : In d (ssort l) -> In d l.
+Proof.
+  unfold ssort. induction l as [|c t IH]; cbn; [auto|]. intros H. apply sinsert_In in H. destruct H; [left; congruence|right; auto].
+Qed.
+End PriorNames.
+
+Lemma map_flat_map {A B C : Type} (g : B -> C) (h : A -> list B) l :
+  map g (flat_map h l) = flat_map (fun x => map g (h x)) l.
+Proof. induction l; cbn; [reflexivity|]. rewrite map_app, IHl. reflexivity. Qed.
+
+Lemma exact_cands_map f m : exact_cands m f = map (gmap f) (exact_cands m (fun s => s)).
+Proof.
+  unfold exact_cands. rewrite map_flat_map. apply flat_map_ext. intros c.
+  rewrite map_flat_map. apply flat_map_ext. intros l. destruct (ml_exact l); [|reflexivity].
+  cbn. unfold gmap. cbn. rewrite map_map. reflexivity.
+Qed.
+
+Definition names_involved (br : list string) (m : model) : list string :=
+  br ++ flat_map fst (exact_cands m (fun s => s)).
+
+Theorem prior_adjustment_names f br m :
+  (forall x y, In x (names_involved br m) -> In y (names_involved br m) -> f x = f y -> x = y) ->
+  adjusted_prior f f br m = adjusted_prior (fun s => s) (fun s => s) br m.
+Proof.
+  intros Hinj. unfold adjusted_prior, levels_for_rule. f_equal. f_equal.
+  rewrite (exact_cands_map f), ssort_map, map_id.
+  apply (greedy_map f (names_involved br m) Hinj).
+  - intros c Hc. apply ssort_In in Hc. intros z Hz. unfold names_involved. apply in_or_app. right.
+    apply in_flat_map. exists c. split; assumption.
+  - intros z Hz. unfold names_involved. apply in_or_app. left. exact Hz.
+Qed.
